@@ -50,7 +50,7 @@ def run(ctx):
     n = 1000 if ctx.tier == "quick" else 15000
     done = 0
     while done < n and ctx.time_left() > 5:
-        batch = gen_valid_graphs(ctx, min(250, n - done), max_demes=6 if ctx.tier == "quick" else 8)
+        batch = gen_valid_graphs(ctx, min(250, n - done), corpus=True, max_demes=6 if ctx.tier == "quick" else 8)
         done += len(batch)
         graphs = [g for _, g, _ in batch]
         reps = ctx.driver.batch([{"op": "matrices", "graph": enc(g.asdict())} for g in graphs])
